@@ -11,7 +11,7 @@ for ID in $IDS; do
   git -C /repo worktree remove --force $WT 2>/dev/null; rm -rf $WT
   git -C /repo worktree add -q --detach $WT HEAD || { echo "$ID worktree failed"; continue; }
   ( cd $WT && git apply $HERE/seeded/$ID/patch.diff ) || { echo "$ID patch failed" | tee $OUT/$ID.result; git -C /repo worktree remove --force $WT; continue; }
-  CIWVERIF_REPO=$WT CIWVERIF_NOEVIDENCE=1 $HERE/bin/check $P --tier ${TIER:-quick} > $OUT/$ID.log 2>&1; RC=$?
+  CIWVERIF_REPO=$WT CIWVERIF_NOEVIDENCE=1 CIWVERIF_SKIP_MC=1 $HERE/bin/check $P --tier ${TIER:-quick} > $OUT/$ID.log 2>&1; RC=$?
   echo "$ID rc=$RC viol=$(grep -c '^VIOLATION' $OUT/$ID.log) clauses: $(grep '^VIOLATION' $OUT/$ID.log | sed 's/.*clause=\([^ ]*\).*/\1/' | sort | uniq -c | tr '\n' ';' | tr -s ' ')" | tee $OUT/$ID.result
   git -C /repo worktree remove --force $WT 2>/dev/null; rm -rf $WT
 done
